@@ -57,9 +57,10 @@ Shift(u) == CASE Lower(u) = "b" -> 0 [] Lower(u) \in {"kb", "kib"} -> 10 [] Lowe
 KnownUnit(u) == IF Target = "size" THEN u \in SizeUnits ELSE u \in IntervalUnits
 Bits == IF Target = "size" THEN 64 ELSE 63
 
-\* ---- literals
+\* ---- literals  (white space between number and unit is what Unicode calls white space: "<nbsp>" U+00A0 and "<vt>" U+000B
+\* stand for the kinds that are not ASCII blanks)
 Lit == [form : {"int", "str"}, lead : {"", " ", "-"}, num : PowNums \cup SmallNums, frac : BOOLEAN,
-        ws : {"", " ", "   "}, unit : {""} \cup SizeUnits \cup IntervalUnits \cup JunkUnits \cup LongJunk, trail : {"", " "}]
+        ws : {"", " ", "   ", "<nbsp>", "<vt>"}, unit : {""} \cup SizeUnits \cup IntervalUnits \cup JunkUnits \cup LongJunk, trail : {"", " "}]
 WellShapedInt(l) == l.form = "int" /\ l.frac = FALSE /\ l.ws = "" /\ l.unit = "" /\ l.trail = "" /\ l.lead \in {"", "-"} /\ l.num.t \notin {"lz", "lzz", "sp"}
 \* the verdict: [ok, shift, unit]
 Decide(l) ==
